@@ -3559,13 +3559,24 @@ impl GlobalInferenceCtx<'_> {
                                     });
                                 }
                                 None => {
-                                    // a named struct is never a weak type. (`is_weak_replaceable_by`
-                                    // says it is replaceable by a `distinct` of itself, which let
-                                    // `s = d` with `s : S`, `d : distinct S` through unchecked)
-                                    let dest_is_named_struct =
-                                        matches!(dest_ty.as_ref(), Ty::ConcreteStruct { .. });
+                                    // only a destination whose type is still weak (an untyped number,
+                                    // an anonymous array / struct, or something that holds one) can
+                                    // take the type of the value. `is_weak_replaceable_by` alone also
+                                    // says that `S`, `?S` or `[]i32` are replaceable by a `distinct`
+                                    // of themselves, which let `s = d` with `s : S`, `d : distinct S`
+                                    // through unchecked
+                                    fn is_still_weak(ty: &Ty) -> bool {
+                                        match ty {
+                                            Ty::AnonArray { .. } | Ty::AnonStruct { .. } => true,
+                                            Ty::ConcreteArray { sub_ty, .. }
+                                            | Ty::Slice { sub_ty }
+                                            | Ty::Pointer { sub_ty, .. }
+                                            | Ty::Optional { sub_ty } => is_still_weak(sub_ty),
+                                            other => other.might_be_weak(),
+                                        }
+                                    }
 
-                                    if !dest_is_named_struct
+                                    if is_still_weak(&dest_ty)
                                         && dest_ty.is_weak_replaceable_by(&value_ty)
                                     {
                                         self.replace_weak_tys(assign_body.dest, value_ty);
